@@ -188,7 +188,8 @@ def branch_of(conds, occ):
     """index of the first condition/arm whose pattern matches the occurrence value (guards ignored);
     a scrutinee spelled with `.take()` yields the value once and None afterwards"""
     it = absint.Interp()
-    wrapped = any(c is not None and any(x.get("p") in ("Some", "None") for x in vf.walk(c[1])) for c in conds)
+    # is the scrutinee an Option<Occur>?  decided by the outermost constructor of the patterns (a nested `lower: Some(_)` does not count)
+    wrapped = any(c is not None and any(vf.pat_path(alt) in ("Some", "None") for alt in vf.pat_alternatives(c[1])) for c in conds)
     val = vt.occ_val(occ)
     taken = set()
     for i, c in enumerate(conds):
@@ -215,7 +216,7 @@ def arm_value(n, conds, idx, occ):
     arms = [a for a in n["arms"] if absint.default_cfg_all(a)]
     if idx >= len(arms):
         return None
-    wrapped = any(x.get("p") in ("Some", "None") for x in vf.walk(arms[idx]["pat"]))
+    wrapped = any(vf.pat_path(alt) in ("Some", "None") for alt in vf.pat_alternatives(arms[idx]["pat"]))
     val = vt.occ_val(occ)
     it = absint.Interp()
     try:
